@@ -105,7 +105,7 @@ Proof.
 Qed.
 
 (* ---------- facts about the scraped tables ---------- *)
-Definition pow2s : list Z := [1; 2; 4; 8; 16; 32; 64; 128; 256; 512; 1024; 2048; 4096; 8192; 16384; 32768; 65536].
+Definition pow2s : list Z := [1; 2; 4; 8; 16; 32; 64; 128; 256; 512; 1024; 2048; 4096; 8192; 16384; 32768; 65536; 131072; 262144; 524288; 1048576; 2097152; 4194304; 8388608; 16777216; 33554432; 67108864; 134217728; 268435456].
 Definition p2 (a : Z) : Prop := In a pow2s.
 
 Lemma p2_divides a b : p2 a -> p2 b -> b mod a = 0 \/ a mod b = 0.
@@ -123,9 +123,9 @@ Lemma p2_max a b : p2 a -> p2 b -> p2 (Z.max a b).
 Proof. intros. destruct (Z.max_spec a b) as [[_ ->]|[_ ->]]; auto. Qed.
 Lemma p2_1 : p2 1. Proof. left. reflexivity. Qed.
 
-Lemma is_pow2_small A : is_pow2 A = true -> A <= 65536 -> p2 A.
+Lemma is_pow2_small A : is_pow2 A = true -> A <= 268435456 -> p2 A.
 Proof.
-  (* a power of two below 2^17 is one of the listed ones *)
+  (* a power of two up to 2^28 is one of the listed ones *)
   unfold is_pow2. intros H Hle.
   assert (0 < A) by lia.
   assert (Hl : Z.land A (A - 1) = 0) by lia.
@@ -139,11 +139,9 @@ Proof.
       assert (Z.log2 (A - 1) = Z.log2 A) by (apply Z.log2_unique; [apply Z.log2_nonneg|lia]).
       rewrite <- H2. apply Z.bit_log2. pose proof (Z.pow_pos_nonneg 2 (Z.log2 A) ltac:(lia) (Z.log2_nonneg A)). lia. }
     rewrite Hl in Hb. rewrite Z.bits_0 in Hb. discriminate. }
-  assert (0 <= Z.log2 A <= 16).
-  { split; [apply Z.log2_nonneg|]. change 16 with (Z.log2 65536). apply Z.log2_le_mono. exact Hle. }
+  assert (0 <= Z.log2 A <= 28).
+  { split; [apply Z.log2_nonneg|]. change 28 with (Z.log2 268435456). apply Z.log2_le_mono. exact Hle. }
   rewrite Hk. unfold p2, pow2s.
-  assert (Hc : Z.log2 A = 0 \/ Z.log2 A = 1 \/ Z.log2 A = 2 \/ Z.log2 A = 3 \/ Z.log2 A = 4 \/ Z.log2 A = 5 \/ Z.log2 A = 6 \/
-          Z.log2 A = 7 \/ Z.log2 A = 8 \/ Z.log2 A = 9 \/ Z.log2 A = 10 \/ Z.log2 A = 11 \/ Z.log2 A = 12 \/ Z.log2 A = 13 \/
-          Z.log2 A = 14 \/ Z.log2 A = 15 \/ Z.log2 A = 16) by lia.
+  assert (Hc : Z.log2 A = 0 \/ Z.log2 A = 1 \/ Z.log2 A = 2 \/ Z.log2 A = 3 \/ Z.log2 A = 4 \/ Z.log2 A = 5 \/ Z.log2 A = 6 \/ Z.log2 A = 7 \/ Z.log2 A = 8 \/ Z.log2 A = 9 \/ Z.log2 A = 10 \/ Z.log2 A = 11 \/ Z.log2 A = 12 \/ Z.log2 A = 13 \/ Z.log2 A = 14 \/ Z.log2 A = 15 \/ Z.log2 A = 16 \/ Z.log2 A = 17 \/ Z.log2 A = 18 \/ Z.log2 A = 19 \/ Z.log2 A = 20 \/ Z.log2 A = 21 \/ Z.log2 A = 22 \/ Z.log2 A = 23 \/ Z.log2 A = 24 \/ Z.log2 A = 25 \/ Z.log2 A = 26 \/ Z.log2 A = 27 \/ Z.log2 A = 28) by lia.
   repeat (destruct Hc as [Hc|Hc]; [rewrite Hc; cbn; tauto|]). rewrite Hc; cbn; tauto.
 Qed.
